@@ -374,9 +374,17 @@ class Compiler:
         try:
             base, code = wait(link_base["promise"]), wait(generated_code)
 
-            # Resolve all symbols, in case some have not been used
-            for _, (_, value) in self.symbols.items():
-                wait(value)
+            # Resolve all symbols, in case some have not been used. Waiting for a value may
+            # assemble a statement that was left pending after an error (a '.repeat' around an
+            # '.include', say) and thereby define further symbols: go on until there are no new ones.
+            resolved = 0
+            while True:
+                symbols = list(self.symbols.items())
+                if len(symbols) == resolved:
+                    break
+                for _, (_, value) in symbols[resolved:]:
+                    wait(value)
+                resolved = len(symbols)
         except DeferredCycle:
             # A genuine cycle: a symbol defined through itself, or a statement
             # whose size depends on a label behind it. We do not know which
